@@ -92,15 +92,29 @@ example : runWitness ⟨300000, none, true, fun _ => true, fun _ _ => true⟩
     [List.replicate 33 1, List.replicate 33 2, List.replicate 33 3] [List.replicate 64 1, List.replicate 64 2]
     (by decide) (by decide) (by decide) (by simp) (by simp)).2.2.2 (by decide) true (by decide)
 
-/-! The same statement over *every* script `scparser.ParseMultiSigContract` takes for a standard multisig
-contract (not only the builder's output),
+/-- **standard_cost_exact.** The same over *every* script `scparser.ParseMultiSigContract` takes for a standard multisig
+contract — `m` and the key count pushed with any of PUSH1..PUSH16 / PUSHINT8..PUSHINT256, keys of 33..255 bytes — not
+only the builder's output: with `m` signatures of 64 bytes the interpreter (whenever CheckMultisig reaches a verdict and
+the stack limit allows) halts with that verdict having charged exactly what `fee.Calculate` (since fix c9cbbdc: the
+prices of the instructions the script really has) says. -/
+theorem standard_cost_exact (base : Nat) (gorgon : Bool) (validKey : Bytes → Bool) (verify : Bytes → Bytes → Bool)
+    (script : Bytes) (pubs sigs : List Bytes) (r : Bool)
+    (hp : parseMultiSig script = some (sigs.length, pubs))
+    (hs : ∀ sg ∈ sigs, sg.length = 64)
+    (hst : sigs.length + pubs.length + 2 ≤ maxStackSize)
+    (hr : multisigResult validKey verify pubs.reverse sigs.reverse = some r) :
+    ∃ pico, runWitness ⟨base, none, gorgon, validKey, verify⟩ (invScript sigs) script = some ⟨[.bool r], pico, .op⟩
+      ∧ picoToDatoshi pico = (calculate base script).1 := by
+  obtain ⟨mIns, nIns, hsh, hm, hn, hcalc⟩ := calculate_parsed base script sigs.length pubs hp
+  obtain ⟨_, _, _, _, _, hm1, hmn, _, hk⟩ := parseMultiSig_inv script sigs.length pubs hp
+  refine ⟨shapePico base sigs.length pubs.length (opOf mIns) (opOf nIns), ?_, hcalc.symm⟩
+  rw [hsh]
+  exact run_shape_witness base gorgon validKey verify mIns nIns pubs sigs r hm hn hm1 hmn
+    (fun k hk' => (hk k hk').2) (fun s hs' => by rw [hs s hs']; decide) (fun _ s hs' => by rw [hs s hs']; rfl) hst hr
 
-    ∀ script inv s, parseMultiSig script ≠ none → runWitness e inv script = some s →
-        picoToDatoshi s.gas = (calculate e.base script).1,
-
-does not hold for the code as written (known finding `calc-vs-vm-noncanonical-script`): the parser also accepts
-`m`/`n` pushed with PUSHINT128/PUSHINT256 (price 4), `calculateMultisig` prices the opcode `emit.Int` would
-have used (price 1). Witness: 2-of-3 with `m` pushed as `PUSHINT128 2`. -/
+/-! Regression example for the defect this theorem used to fail on (known finding `calc-vs-vm-noncanonical-script`, fixed by
+c9cbbdc): 2-of-3 with `m` pushed as `PUSHINT128 2` (price 4). The old rule (`calculateOld`) priced the opcode `emit.Int`
+would have used (price 1) and was 90 datoshi short of the interpreter; the rule as it is now agrees with it. -/
 
 def ncKeys : List Bytes := [List.replicate 33 1, List.replicate 33 2, List.replicate 33 3]
 def ncScript : Bytes :=
@@ -110,10 +124,18 @@ def ncInv : Bytes := invScript [List.replicate 64 1, List.replicate 64 2]
 set_option maxRecDepth 100000 in
 theorem standard_cost_exact_fails :
     (parseMultiSig ncScript).map (·.1) = some 2
-    ∧ (calculate 300000 ncScript).1 = 2950380
+    ∧ (calculateOld 300000 ncScript).1 = 2950380
+    ∧ (calculate 300000 ncScript).1 = 2950470
     ∧ (runWitness ⟨300000, none, true, fun _ => true, fun _ _ => true⟩ ncInv ncScript).map
         (fun s => (s.stack, picoToDatoshi s.gas)) = some ([.bool true], 2950470) := by
   decide
+
+set_option maxRecDepth 100000 in
+/-- and `standard_cost_exact` applies to that script. -/
+example : ∃ pico, runWitness ⟨300000, none, true, fun _ => true, fun _ _ => true⟩ ncInv ncScript = some ⟨[.bool true], pico, .op⟩
+    ∧ picoToDatoshi pico = (calculate 300000 ncScript).1 :=
+  standard_cost_exact 300000 true (fun _ => true) (fun _ _ => true) ncScript ncKeys [List.replicate 64 1, List.replicate 64 2] true
+    (by decide) (by simp) (by decide) (by decide)
 
 /-- the gas limit never changes what is charged: running under a limit of `L` picoGAS is running without
 and failing iff the total exceeds `L` (the VM checks after every charge; gas only grows). -/
@@ -136,6 +158,10 @@ inductive StdWit (c : Chain) : Wit → Bytes → Prop where
       (hst : sigs.length + keys.length + 2 ≤ maxStackSize)
       (hv : multisigResult c.validKey c.verify keys.reverse sigs.reverse = some true) :
       StdWit c (.std true (invScript sigs) (builtMultisig sigs.length keys)) (builtMultisig sigs.length keys)
+  | parsed (script : Bytes) (pubs sigs : List Bytes) (hp : parseMultiSig script = some (sigs.length, pubs))
+      (hs : ∀ sg ∈ sigs, sg.length = 64) (hst : sigs.length + pubs.length + 2 ≤ maxStackSize)
+      (hv : multisigResult c.validKey c.verify pubs.reverse sigs.reverse = some true) :
+      StdWit c (.std true (invScript sigs) script) script
 
 /-- a standard witness verifies iff `fee.Calculate`'s fee fits the gas it is given, and consumes exactly it. -/
 theorem stdWit_cost (c : Chain) (w : Wit) (ver : Bytes) (h : StdWit c w ver) :
@@ -152,6 +178,10 @@ theorem stdWit_cost (c : Chain) (w : Wit) (ver : Bytes) (h : StdWit c w ver) :
       (fun k hk' => by rw [hk k hk']; decide) (fun s hs' => by rw [hs s hs']; decide)
       (fun _ s hs' => by rw [hs s hs']; rfl) hst hv
     simp only [verifyOne, calculate_built c.base sigs.length keys hm1 hmn hn hk]
+    exact verifyWitness_of_run _ _ _ _ _ gas _ _ _ hrun
+  | parsed _ pubs sigs hp hs hst hv =>
+    obtain ⟨pico, hrun, hpico⟩ := standard_cost_exact c.base c.gorgon c.validKey c.verify ver pubs sigs true hp hs hst hv
+    simp only [verifyOne, ← hpico]
     exact verifyWitness_of_run _ _ _ _ _ gas _ _ _ hrun
 
 /-- the network fee a wallet computes: size·feePerByte + attribute fees + Σ fee.Calculate over the witnesses. -/
@@ -440,6 +470,9 @@ theorem stillRelevant_sound (c : Chain) (t : Tx)
     | multi keys sigs hm1 hmn hn hk1 hs1 hst1 hv =>
       simp only [Wit.stdCost, hst, if_true, Option.some.injEq] at hk
       exact hk.symm
+    | parsed _ pubs sigs hp hs1 hst1 hv =>
+      simp only [Wit.stdCost, hst, if_true, Option.some.injEq] at hk
+      exact hk.symm
   subst hk'
   exact ⟨stdWit_cost c s.wit ver hsv, hle⟩
 
@@ -473,12 +506,12 @@ example : stillRelevantOld { exChain with maxVUBInc := 5 } (exT 1) = true
     ∧ admit { exChain with maxVUBInc := 5 } (freePool (exT 1)) (exT 1) = some .notYetValid
     ∧ stillRelevant { exChain with maxVUBInc := 5 } (exT 1) = false := by decide
 
-/-- **stillRelevant_noncanonical_gap** (negation witness; same root as the known finding
-`calc-vs-vm-noncanonical-script`). The hypothesis "standard witnesses are the builders' scripts" of
-`stillRelevant_sound` cannot be dropped: `ncScript` (2-of-3 with `m` pushed as PUSHINT128) is a standard contract
-for `scparser`, so the filter prices it with `fee.Calculate`, which is 90 datoshi below what the VM charges. A
-transaction paying exactly the VM's price at base 300000 is admitted; when the base price moves to 300001 the
-filter keeps it (2950390 ≤ 2950470) while `VerifyTx` rejects it (the VM now charges 2950480). -/
+/-- **stillRelevant_noncanonical_gap** — now a regression example (the gap was closed together with the known finding
+`calc-vs-vm-noncanonical-script` by fix c9cbbdc). `ncScript` (2-of-3 with `m` pushed as PUSHINT128) is a standard
+contract for `scparser`, so the filter prices it with `fee.Calculate`. Under the old rule that was 90 datoshi below what
+the VM charges: a transaction paying exactly the VM's price at base 300000 stayed pooled when the base price moved to
+300001 (old calculator 2950390 ≤ 2950470) although `VerifyTx` rejects it (the VM charges 2950480). With the calculator
+as it is now the filter drops it. -/
 def ncTx : Tx :=
   { hash := 5, version := 0, scriptLen := 1, scriptOk := true, sysFee := 100, netFee := 200 * 1000 + 2950470, validUntil := 20,
     size := 200, signers := [⟨10, false, .std true ncInv ncScript⟩], attrs := [] }
@@ -486,7 +519,8 @@ def ncTx : Tx :=
 set_option maxRecDepth 1000000 in
 theorem stillRelevant_noncanonical_gap :
     admit exChain (freePool ncTx) ncTx = none
-    ∧ stillRelevant { exChain with base := 300001 } ncTx = true
+    ∧ (calculateOld 300001 ncScript).1 = 2950390 ∧ (calculate 300001 ncScript).1 = 2950480
+    ∧ stillRelevant { exChain with base := 300001 } ncTx = false
     ∧ admit { exChain with base := 300001 } (freePool ncTx) ncTx = some .witness := by decide
 
 end NeoModel.C07
@@ -1021,8 +1055,8 @@ theorem admit_pre (c : Chain) (p : Pool) (t : Tx) (h : admit c p t = none) :
 /-- a block `blk` takes the chain from `c0` to `c` (one block higher, MaxTraceableBlocks and the configured fee limit
 unchanged, the block's transactions stored the way `StoreAsTransaction` stores them; Policy values, blocked accounts,
 attribute fees may all have changed), seen from a pool: the records under the pooled hashes carry indices of accepted
-blocks, and the standard witnesses of the pooled transactions are the builders' scripts with valid signatures (what
-`stillRelevant_noncanonical_gap` shows cannot be dropped while `fee.Calculate` misprices other accepted scripts). -/
+blocks, and the standard witnesses of the pooled transactions — ANY script the parsers accept, `StdWit.parsed` — carry
+valid signatures (a state-independent fact established when they were admitted). -/
 structure BlockStep (c0 c : Chain) (blk pool : List Tx) : Prop where
   height : c.height = c0.height + 1
   mtb : c.mtb = c0.mtb
@@ -1100,37 +1134,4 @@ example : ([t2].filter (stillRelevantAfter (exAfter [yOther]) [yOther])).map (·
 
 end NeoModel.C07
 
-namespace NeoModel.C07
-open NeoModel NeoModel.Fees NeoModel.Admission NeoModel.Pack
-open NeoModel.Generated.FeeConsts
-open NeoModel.Wire (varUintSize)
 
-/-! ## 14. the repair proposed for the known finding `calc-vs-vm-noncanonical-script`
-
-Not the code as it is: `calculateRepaired` is `fee.Calculate` with the multisig branch pricing the push instructions
-the script really contains (the diff is in the round's report). It becomes the model's `calculate` when the repair
-is applied to /repo. -/
-
-/-- size of an integer push instruction: opcode and operand. -/
-def pushIntSize (op : Nat) : Nat := if op ≤ opPUSHINT256 then 1 + 2 ^ op else 1
-
-def calculateRepaired (base : Nat) (script : Bytes) : Nat × Nat :=
-  if isSignatureContract script then calculate base script
-  else match parseMultiSig script with
-    | some (m, pubs) =>
-      let n := pubs.length
-      let mOp := (script.headD 0).toNat
-      let nOff := pushIntSize mOp + (pubs.map fun p => 2 + p.length).sum
-      let nOp := (script.getD nOff 0).toNat
-      (picoToDatoshi (coeff opPUSHDATA1 * base * (m + n) + (coeff mOp + coeff nOp) * base + base * ecdsaVerifyPrice * n),
-       (calculate base script).2)
-    | none => (0, 0)
-
-set_option maxRecDepth 1000000 in
-/-- on the witness of the known finding the repaired calculator gives what the interpreter charges (2950470 instead of
-2950380), and on the builder's own script it gives what it gave before. -/
-example : (calculateRepaired 300000 ncScript).1 = 2950470
-    ∧ (runWitness ⟨300000, none, true, fun _ => true, fun _ _ => true⟩ ncInv ncScript).map (fun s => picoToDatoshi s.gas) = some 2950470
-    ∧ calculateRepaired 300000 (builtMultisig 2 ncKeys) = calculate 300000 (builtMultisig 2 ncKeys) := by decide
-
-end NeoModel.C07
